@@ -118,7 +118,9 @@ def run(O, P):
         for cin, cout, m in calls:
             if cout.get("outcome") == "ok":
                 jobs.append({"id": case["id"], "code": cin["code"], "file": cin["file"], "response": cout["result"]})
-    jobs = jobs[:600 if O.tier == "quick" else 6000]
+    # the hand-written inputs (BOM, CRLF, empty, shebang ...) first, then the not-modified results, then the rest, up to the tier's budget
+    jobs.sort(key=lambda j: (0 if j["id"].startswith(("c12odd", "c12ref")) else 1 if (j["response"].get("metrics") or {}).get("status") == "notmodified" else 2))
+    jobs = jobs[:900 if O.tier == "quick" else 6000]
     if jobs:
         res = vlib.run_node("pkg_wrapper.js", jobs)
         if res is None or len(res) != len(jobs):
